@@ -49,20 +49,24 @@ NSH = {"P2": 8, "P3": 12, "D1": 6, "AL": 8}
 
 
 def RULE(tier):
+    common = (
+        "6 base frames (int/float+NaN/bool/str/datetime/categorical/nullable Int64 columns, 6 rows; values permuted by VERIF_SEED).  Typed alphabet (_dfprog): ~80 frame "
+        "steps (projection incl. reordering, boolean filters incl. reductions in predicates and empty selections, assign incl. shadowing/swapping, frame/series/scalar "
+        "arithmetic and comparisons and their method forms, astype, fillna, where/mask, isin, clip, map/apply with meta, rename) and 40-60 steps per series kind incl. 40 "
+        ".str members, 31 .dt members, 17 .cat members; the alphabet of step k+1 is derived from the pandas result of step k.  Oracle: computed object identical to pandas "
+        "(values, dtypes, index, names, row order).  non-trivial = >= 2 partitions.  "
+    )
     if tier == "quick":
-        return (
-            "6 base frames (int/float+NaN/bool/str/datetime/categorical/nullable Int64 columns, 6 rows).  P2: EVERY program of <= 2 steps whose first step is from the "
-            "core alphabet (each column, projections, 3 filters, 2 assigns, +1, rename; per series kind 3-5 ops) and whose last step ranges over the FULL typed alphabet "
-            "(~80 frame steps: projection, boolean filters incl. reductions in predicates, assign incl. shadowing, frame/series/scalar arithmetic and comparisons, astype, "
-            "fillna, where/mask, isin, clip, map/apply with meta, rename; 40-60 steps per series kind incl. every str/dt/cat accessor member listed in _dfprog) x 6 "
-            "configurations (index kind x partitioning x known/unknown divisions, with empty partitions).  D1: every 1-step program x EVERY partitioning into <= 3 partitions "
-            "(28, empty ones included) x index kinds {range, sorted_dup}.  AL: 9 binary/ternary operations between the frame and a SEPARATELY built, differently "
-            "partitioned twin x all pairs of 12 partitionings x 4 index kinds.  Oracle: computed object identical to pandas (values, dtypes, index, names, row order).  "
-            "non-trivial = >= 2 partitions."
+        return common + (
+            "P2: EVERY program of <= 2 steps core-prefix x full alphabet (~5400) x 3 configurations (known divisions / known divisions with duplicated labels / unknown "
+            "divisions with empty partitions).  D1: every 1-step program (~410) x EVERY partitioning of the 6 rows into <= 3 partitions (28, empty ones included), index kind "
+            "rotating over the 5 kinds.  AL: 10 (num, nullable) / 5 (str) binary and ternary operations between the frame and a SEPARATELY built, differently partitioned twin "
+            "with the identical index x all 64 pairs of 8 partitionings x 4 index kinds."
         )
-    return (
-        "as quick, but P2 = EVERY program of <= 2 steps over the full alphabet x 12 configurations; P3 = every 3-step program core x core x full x 4 configurations; "
-        "D1 = every 1-step program x EVERY partitioning into <= 4 partitions (120) x 5 index kinds and every (column, series step) program x the 120 partitionings (index kind rotating); AL = all pairs of the 28 partitionings into <= 3 partitions."
+    return common + (
+        "P2 = EVERY program of exactly 2 steps over the full alphabet (~26k) x 12 configurations; P3 = every 3-step program core x core x full (~58k) x 4 configurations; "
+        "D1 = every 1-step program x EVERY partitioning into <= 4 partitions (120) x 5 index kinds and every (column, series step) program x the 120 partitionings (index kind "
+        "rotating); AL = all 784 pairs of the 28 partitionings into <= 3 partitions."
     )
 
 
